@@ -37,6 +37,7 @@ STARTS = {
     "halfday_minus": ("jd", 2459581.0, 0.5 - 1e-9),     # jd2 within 1e-9 of +1/2 day
     "halfday_plus": ("jd", 2459581.0, -0.5 + 3e-10),    # jd2 within 1e-9 of -1/2 day
     "mjd_int": ("jd", 2459000.5, 0.0),
+    "tai": ("tai_mjd", 59000.0, 0.7123456789),          # a start time kept on the TAI scale, MJD format
 }
 
 
@@ -51,6 +52,8 @@ def start(name):
         return None
     if s[0] == "isot":
         return Time(s[1], format="isot", scale="utc", precision=9)
+    if s[0] == "tai_mjd":
+        return Time(s[1], s[2], format="mjd", scale="tai", precision=9)
     return Time(s[1], s[2], format="jd", scale="utc", precision=9)
 
 
